@@ -578,11 +578,16 @@ class Dataset(AbstractDataset, dict, OpMixin, GetSetDelAttrMixin):
                 raise TypeError("mapper must be callable")
             iterkeys = [(old, mapper(old)) for old in ds.keys()]
 
-        for old, new in iterkeys:
-            val = super(Dataset, ds).__getitem__(old) # same as ds[old]
+        # fetch all variables before moving any of them (swaps), and refuse occupied keys
+        renamed = [(old, new, super(Dataset, ds).__getitem__(old)) for old, new in iterkeys] # same as ds[old]
+        newkeys = [new for old, new, val in renamed]
+        kept = [k for k in ds.keys() if k not in [old for old, new, val in renamed]]
+        if len(set(newkeys)) != len(newkeys) or any(new in kept for new in newkeys):
+            raise ValueError("rename_keys: key already exists")
+        for old, new, val in renamed:
+            super(Dataset, ds).__delitem__(old)
+        for old, new, val in renamed:
             super(Dataset, ds).__setitem__(new, val)
-            if old != new:
-                super(Dataset, ds).__delitem__(old)
 
         if not inplace:
             return ds
